@@ -187,7 +187,10 @@ def run(ctx):
             if e["ev"] == "leak":
                 ctx.violation("leak|marker=%s|type=%d" % (e["marker"], e["type"]),
                               "%s %s: plaintext (%s) visible in the wire body of message %d" % (r["suite"], r["cipher"], e["marker"], e["type"]), {"run": r, "event": e})
-    want_mut = sum(1 for r in runs if r["class"] != "none")
+    # runs whose target message was not a COSE object at all cannot be rewritten (they are rejected by FormPinned below)
+    not_cose = sum(1 for rid, es in byrun.items() if runs[rid]["class"] != "none" and
+                   any(e["ev"] == "enc" and e["type"] == runs[rid]["type"] and e["form"] == "other" for e in es))
+    want_mut = sum(1 for r in runs if r["class"] != "none") - not_cose
     if mutated < 0.9 * want_mut:
         raise Inconclusive("only %d of %d adversarial runs reached the message to rewrite" % (mutated, want_mut))
     nval, nbad = validate(ctx, runs, byrun, flip)
